@@ -49,6 +49,17 @@ inline constexpr void convert_type_fundamental(T_To& to,
     const char* err_msg =
       "Over/Underflow when converting between integer types";
 
+    if constexpr (is_same_v<remove_cv_t<T_From>, bool>) {
+      // A bool that lives in sandbox memory can hold any byte, but only 0 and 1
+      // are values of a bool: look at the byte itself, and refuse the rest, so
+      // that an invalid bool object never reaches the application
+      const unsigned char raw =
+        *reinterpret_cast<const volatile unsigned char*>(&from);
+      dynamic_check(raw <= 1, err_msg);
+      to = static_cast<T_To>(raw);
+      return;
+    }
+
     // Some branches don't use the param
     RLBOX_UNUSED(err_msg);
 
@@ -134,11 +145,12 @@ inline constexpr void convert_type_fundamental_or_array(T_To& to,
     // different types of the same width such as void* and uintptr_t
     // Same size and signedness is not enough for a verbatim copy: bool and
     // unsigned char (or float and an integer type) agree in both, but do not
-    // have the same values
+    // have the same values; and bool elements are converted one by one, as
+    // only the bytes 0 and 1 are bools
     if constexpr (sizeof(T_To_El) == sizeof(T_From_El) &&
                   is_signed_v<T_To_El> == is_signed_v<T_From_El> &&
-                  is_same_v<remove_cv_t<T_To_El>, bool> ==
-                    is_same_v<remove_cv_t<T_From_El>, bool> &&
+                  !is_same_v<remove_cv_t<T_To_El>, bool> &&
+                  !is_same_v<remove_cv_t<T_From_El>, bool> &&
                   is_floating_point_v<T_To_El> ==
                     is_floating_point_v<T_From_El>) {
       // Sanity check - this should definitely be true
